@@ -865,6 +865,17 @@ MUTANTS = [
            lambda f, t: set_test(f, lambda e: u(e) == "client is None", "False")),
     Mutant("C10", "every-fetch-adopts-the-stream", "C10-R4", S, "DaemonObject.get_next_stream_item",
            lambda f, t: set_test(f, lambda e: u(e) == "client is None", "True")),
+    # ---- rules added after the twelfth blind round (DESIGN 10.17)
+    Mutant("C07", "traceback-banner-built-before-the-guard", "C07-R3", "Pyro5/errors.py", "format_traceback",
+           lambda f, t: (lambda ifd: ifd.body.insert(1, stmts("banner = ' EXCEPTION %s: %s\\n' % (ex_type, ex_value)")[0]))([n for n in f.body if isinstance(n, ast.If) and u(n.test) == "detailed"][0])),
+    Mutant("C14", "tags-stored-as-given", "C14-R5", NSV, "NameServer.register",
+           lambda f, t: replace_expr(f, lambda e: isinstance(e, ast.IfExp) and u(e) == "set(metadata) if metadata else None", "metadata or None")),
+    Mutant("C14", "autocleaner-never-forgets-a-recovered-name", "C14-R4", NSV, "AutoCleaner.run",
+           lambda f, t: delete_stmt(f, lambda s: isinstance(s, ast.If) and u(s.test) == "name in self.unreachable" and any(isinstance(x, ast.Delete) for x in s.body))),
+    Mutant("C09", "existing-connection-wrapped-per-request", "C09-R3", "Pyro5/svr_existingconn.py", "SocketServer_ExistingConnection.handleRequest",
+           lambda f, t: f.body.insert(0, stmts("conn = socketutil.SocketConnection(self.sock)")[0])),
+    Mutant("C20", "request-options-collected-on-the-class", "C20-R3", GW, None,
+           lambda f, t: t.body.append(stmts("class RequestOptions:\n    given = set()\n    def __init__(self, environ):\n        for o in environ.get('HTTP_X_PYRO_OPTIONS', '').split(','):\n            self.given.add(o)")[0])),
     Mutant("C18", "communication-timeout-set-by-the-worker", "C18-R3", ST, "SocketServer_Threadpool.events",
            lambda f, t: (delete_stmt(f, lambda s: isinstance(s, ast.If) and "COMMTIMEOUT" in u(s.test)),
                          find_fn(t, "ClientConnectionJob.__call__").body.insert(0, stmts("if config.COMMTIMEOUT:\n    self.csock.timeout = config.COMMTIMEOUT")[0])), also=("C05",)),
